@@ -11,4 +11,4 @@ module D = Driver.Make (struct
   let case_pos = function M.XI q -> `I q | M.XO q -> `O q | M.XH -> `H
   let case_z = function M.Z0 -> `Z0 | M.Zpos p -> `Pos p | M.Zneg p -> `Neg p
 end)
-let () = D.main [ ("C24", M.run_C24) ]
+let () = D.main [ ("C22", M.run_C22); ("C23", M.run_C23); ("C24", M.run_C24) ]
